@@ -423,7 +423,7 @@ def shard(ctx):
                 ctx.res.distinct.add(("when-shadow", json.dumps(sa, sort_keys=True)))
     # ---- the right-hand side of a `keys` filter taken from a literal-bound variable == the literal written in place
     if ctx.mine(4):
-        mdoc = json.dumps({"m": {"web": 1, "db": 2, "log": 3, "lot": 3}, "me": {}})
+        mdoc = json.dumps({"m": {"web": 1, "db": 2, "log": 3, "lot": 3}, "me": {}, "wanted": ["webserver", "dbx", "log"], "one": ["web"]})
         rhss = ["'web'", "'nokey'", "['web', 'db']", "['nokey', 'log']", "/^lo/", "/zz/", "['web', 5]"]
         tails = ["!empty", "empty", "== 1", "in [1, 2]", "{\n        this >= 2\n    }"]
         names, lines = [], []
@@ -440,6 +440,14 @@ def shard(ctx):
                     lines.append("rule f%s {\n    m[ keys %s %%kf%d ] %s\n}\n" % (tag, op, ri, tail))
                     lines.append("rule r%s {\n    let kr = %s\n    m[ keys %s %%kr ] %s\n}\n" % (tag, rhs, op, tail))
                     lines.append("rule w%s {\n    when m exists {\n        let kw = %s\n        m[ keys %s %%kw ] %s\n    }\n}\n" % (tag, rhs, op, tail.replace("\n    ", "\n        ")))
+        # names taken from the document: `keys == %names` is "equals one of the names" - the literal list with `in`
+        for ti, tail in enumerate(tails):
+            for qn, qsrc, litlist in (("qa", "wanted[*]", "['webserver', 'dbx', 'log']"), ("qb", "one[*]", "['web']"), ("qc", "wanted", "['webserver', 'dbx', 'log']")):
+                tag = "%s%d" % (qn, ti)
+                names.append(tag)
+                lines.append("rule a%s {\n    m[ keys in %s ] %s\n}\n" % (tag, litlist, tail))
+                for pfx in "frw":
+                    lines.append("rule %s%s {\n    let kq = %s\n    m[ keys %s %%kq ] %s\n}\n" % (pfx, tag, qsrc, "==" if qn != "qc" else "in", tail))
         head = "".join("let kf%d = %s\n" % (ri, rhs) for ri, rhs in enumerate(rhss))
         res = ctx.w.run({"k": "rc", "data": mdoc, "rules": head + "".join(lines), "verbose": False})
         kind, st, _ = obs.rc_statuses(res)
